@@ -56,10 +56,10 @@ func (prop) Run(t *testing.T, s *sim.Sim, res *runner.Result) {
 		Opts: func(tp *sim.Tape) xrworld.Opts {
 			return xrworld.Opts{Claims: true, SSAClaims: tp.Next(2) == 1}
 		},
-		NoXRs:    true,
-		Params:   xrworld.DrawParams{Readiness: true, Conditions: true, Strict: true, Fatal: true},
-		Faults:   []sim.Outcome{sim.ErrBefore, sim.ErrAfter, sim.Conflict, sim.CrashBefore, sim.CrashAfter},
-		MaxChaos: 220,
+		NoXRs:      true,
+		Params:     xrworld.DrawParams{Readiness: true, Conditions: true, Strict: true, Fatal: true},
+		Faults:     []sim.Outcome{sim.ErrBefore, sim.ErrAfter, sim.Conflict, sim.CrashBefore, sim.CrashAfter},
+		MaxChaos:   220,
 		HealRounds: 4,
 		Started: func(w *xrworld.W, wl *xrworld.Workload) {
 			st.w, st.wl = w, wl
@@ -105,6 +105,22 @@ func (prop) Run(t *testing.T, s *sim.Sim, res *runner.Result) {
 			}
 		},
 	})
+}
+
+// rendersFor: a template renders unless a required from-composite patch lacks its source.
+func rendersFor(tmap, xr map[string]any) bool {
+	patches, _ := tmap["patches"].([]any)
+	for _, p := range patches {
+		pm, _ := p.(map[string]any)
+		pol, _, _ := unstructured.NestedString(pm, "policy", "fromFieldPath")
+		from, _ := pm["fromFieldPath"].(string)
+		if pol == "Required" {
+			if _, found, _ := unstructured.NestedFieldNoCopy(xr, strings.Split(from, ".")...); !found {
+				return false
+			}
+		}
+	}
+	return true
 }
 
 func subset(t *sim.Tape, from []string) []string {
@@ -345,22 +361,24 @@ func (st *state) judgeXR(xrName string, t *sim.Task, startSeq int) {
 	// ---- patch and transform
 	tmpls, _, _ := unstructured.NestedSlice(rev, "spec", "resources")
 	ready, synced := condTrue(xr, "Ready"), condTrue(xr, "Synced")
+	// Ready is asserted only by a reconcile that got through its composition: one
+	// that failed before (or in the middle of) composing writes its error into
+	// Synced and leaves the Ready condition it read untouched
+	if ready {
+		for _, tm := range tmpls {
+			tmap, _ := tm.(map[string]any)
+			name, _ := tmap["name"].(string)
+			if rendersFor(tmap, xr) && !touched[name] {
+				w.S.Probe("ready-carried-over-by-cut-short-composition")
+				ready = false
+			}
+		}
+	}
 	for _, tm := range tmpls {
 		tmap, _ := tm.(map[string]any)
 		name, _ := tmap["name"].(string)
 		// does the template render? a required from-composite patch needs its source
-		renders := true
-		patches, _ := tmap["patches"].([]any)
-		for _, p := range patches {
-			pm, _ := p.(map[string]any)
-			pol, _, _ := unstructured.NestedString(pm, "policy", "fromFieldPath")
-			from, _ := pm["fromFieldPath"].(string)
-			if pol == "Required" {
-				if _, found, _ := unstructured.NestedFieldNoCopy(xr, strings.Split(from, ".")...); !found {
-					renders = false
-				}
-			}
-		}
+		renders := rendersFor(tmap, xr)
 		if !renders {
 			w.S.Probe("template-render-failed")
 			// C10's fault-dependent clause: never applied in this reconcile
@@ -433,6 +451,13 @@ func ptReady(tmpl, obj map[string]any) bool {
 			want, _ := cm["matchString"].(string)
 			got, _, _ := unstructured.NestedString(obj, strings.Split(fp, ".")...)
 			if got != want {
+				return false
+			}
+		case "MatchCondition":
+			typ, _, _ := unstructured.NestedString(cm, "matchCondition", "type")
+			want, _, _ := unstructured.NestedString(cm, "matchCondition", "status")
+			c := cond(obj, typ)
+			if c == nil || c["status"] != want {
 				return false
 			}
 		default:
